@@ -24,7 +24,7 @@ modes
                                                                  again (a stand-in for a fresh interpreter; no text)
 
   helpers    {"sessions": [[[call, ...] program ...] session ...]}
-                                                     the emitter's literal helpers called directly, one session after a module reset each:
+                                                     the emitter's literal helpers called directly, each session after a reload of emitter.py:
                                                        ["dur", indent, var, value]  _emit_duration_ms(indent, var, value)
                                                        ["fmt", value]               _format_float(value)
                                                      value: ["i", n] int | ["f", "text"] float | ["b", bool] | ["s", text] str
@@ -277,9 +277,9 @@ def helper_value(v):
 def run_helpers(sessions):
     import importlib
     out = []
+    E = importlib.import_module("Reduino.transpile.emitter")
     for ses in sessions:
-        reset_modules()
-        E = importlib.import_module("Reduino.transpile.emitter")
+        E = importlib.reload(E)          # the helpers live in emitter.py: fresh function objects, fresh module-level tables
         if not (hasattr(E, "_emit_duration_ms") and hasattr(E, "_format_float")):
             return ["missing"]
         rs = []
